@@ -5,6 +5,7 @@
 # property's check against the patched worktree, and files everything under seeded/<CNN>-d<k>/.
 set -u
 ID="$1"; K="$2"; shift 2
+PID="${ID:0:3}"     # C01r2 -> property C01
 HERE="$(cd "$(dirname "${BASH_SOURCE[0]}")/.." && pwd)"
 WT="/tmp/seed/$ID"; OUT="/tmp/seed/$ID.out"
 P="$OUT/d$K.patch"; DEMO="$OUT/d${K}_demo.py"
@@ -21,7 +22,7 @@ if [ "${SKIP_TESTS:-0}" != "1" ]; then
 fi
 echo "demo clean rc=$clean_rc patched rc=$pat_rc ; tests rc=$test_rc ($(tail -1 "$OUT/d${K}_tests.log" 2>/dev/null))"
 declare -A CR
-for C in "$ID" "$@"; do
+for C in "$PID" "$@"; do
   rc=0
   LIESEL_REPO="$WT" VERIF_EVIDENCE_DIR="$OUT/ev" "$HERE/check" "$C" --tier "${TIER:-quick}" > "$OUT/d${K}_check_$C.log" 2>&1 || rc=$?
   CR[$C]=$rc
@@ -31,7 +32,7 @@ git checkout -q -- . && git clean -fdq
 if [ $clean_rc -eq 0 ] && [ $pat_rc -ne 0 ] && [ $test_rc -eq 0 ]; then
   mkdir -p "$DEST"
   cp "$P" "$DEST/patch.diff"; cp "$DEMO" "$DEST/demo.py"
-  python3 - "$OUT/d${K}_meta.json" "$DEST/meta.json" "$ID" "$K" "${CR[$ID]}" <<'EOF'
+  python3 - "$OUT/d${K}_meta.json" "$DEST/meta.json" "$PID" "$K" "${CR[$PID]}" <<'EOF'
 import json,sys
 src,dst,pid,k,rc=sys.argv[1:6]
 try: m=json.load(open(src))
